@@ -665,7 +665,11 @@ func (w *l1world) exec(op *kop, hstats map[string]int) (known string, ok bool) {
 		w.s3.resetLog()
 		var err error
 		panicked := catch(func() { err = s3db.Vacuum(ctx, tbl.Name, time.Unix(0, op.before)) })
+		sizeBefore := db.Size()
 		w.hs[op.h] = tbl.Tree.Root
+		if tbl.Tree.Root.Size() < sizeBefore {
+			w.emptied[op.h] = true
+		}
 		if w.hs[op.h] != db {
 			w.opened = append(w.opened, w.hs[op.h])
 		}
